@@ -7,6 +7,7 @@
   before or instead of the reply and every history of earlier transactions.
 -/
 import Pymodbus.Props.C13
+import Pymodbus.Generated.Tables
 namespace Pymodbus.Props.C08
 open Pymodbus Txn Framer
 
@@ -274,5 +275,18 @@ example : RtuSized rtuRuleClient (rtuFrame 1 3 (PduSpec.encResp (.readHolding [7
   C03.rtu_oracle_exact_resp (.readHolding [7]) (by simp [C01.WFResp, PduSpec.AllU16]) 1 trivial
 
 end Examples
+
+
+/-- tie to the source: the per-framing constants of the transaction manager read from /repo on this run — base ADU
+    size and exception ADU length (introspected on a stub client per framer) and the minimum first read of `_recv`
+    (literals in the method body, read by ast) — are the model's, and `Defaults.ReadSize` is the 1024 of
+    `expectedLen` -/
+theorem generated_txn_sizes :
+    Generated.txnSizes = [("tcp", Txn.baseAdu .tcp, Txn.excLen .tcp, Txn.minSize .tcp),
+      ("rtu", Txn.baseAdu .rtu, Txn.excLen .rtu, Txn.minSize .rtu),
+      ("ascii", Txn.baseAdu .ascii, Txn.excLen .ascii, Txn.minSize .ascii),
+      ("binary", Txn.baseAdu .binary, Txn.excLen .binary, Txn.minSize .binary)] ∧
+    Generated.defaultReadSize = 1024 := by
+  constructor <;> rfl
 
 end Pymodbus.Props.C08
